@@ -12,9 +12,9 @@ extern REAL N(langs)(char *, SuperMatrix *);
 extern void CAT3(c_fortran_, PL, gssv_)(int *, int *, int_t *, int *, SCALAR *, int_t *, int_t *, SCALAR *, int *, long long int *, int_t *);
 
 #if CPLX
-static ldc W(get)(const void *a, size_t i) { const SCALAR *p = a; return (ld)p[i].r + (ld)p[i].i * I; }
+static ldc W(get)(const void *a, size_t i) { const SCALAR *p = a; return CMPLXL((ld)p[i].r, (ld)p[i].i); }
 static void W(set)(void *a, size_t i, ldc v) { SCALAR *p = a; p[i].r = (REAL)creall(v); p[i].i = (REAL)cimagl(v); }
-static ldc W(round)(ldc v) { return (ld)(REAL)creall(v) + (ld)(REAL)cimagl(v) * I; }
+static ldc W(round)(ldc v) { return CMPLXL((ld)(REAL)creall(v), (ld)(REAL)cimagl(v)); }
 static SCALAR W(sc)(ldc v) { SCALAR s; s.r = (REAL)creall(v); s.i = (REAL)cimagl(v); return s; }
 #else
 static ldc W(get)(const void *a, size_t i) { const SCALAR *p = a; return (ld)p[i]; }
